@@ -1,9 +1,9 @@
 #!/usr/bin/env python3
 """Merge per-configuration evidence files (default / grammar-extras) into one evidence file."""
 import json, sys
-out, parts = sys.argv[1], sys.argv[2:]
+out, parts = sys.argv[1], sys.argv[2:4]
 evs = [json.load(open(p)) for p in parts]
-names = ["default", "extras"]
+names = sys.argv[4:6] if len(sys.argv) >= 6 else ["default", "extras"]
 m = dict(evs[0])
 cov = dict(evs[0]["coverage"])
 cov["evaluations"] = sum(e["coverage"]["evaluations"] for e in evs)
